@@ -44,6 +44,9 @@ func checkC03(c *Ctx) {
 	c.Rule("C03-R10", "the key matcher passes over a bare ESC entry of the table (eterm, which defines no ESC-introduced key, gets one from the control-byte loop): ESC alone stays the Alt prefix or the timed-out Esc key")
 	c.Expect("C03-R10", 1)
 	checkBareEscapeSkipped(c, p, "C03-R10")
+	c.Rule("C03-R12", "a matched sequence decodes to the key of its table entry, a one-byte sequence included (wy50/wy60 bind control bytes to the cursor keys): the key handed to NewEventKey by the key matcher is the entry's key field on every path")
+	c.Expect("C03-R12", 1)
+	checkKeyMatcherUsesTableEntry(c, p, "C03-R12")
 	c.Rule("C03-R11", "every entry is found under its name and under each of its aliases as written: AddTerminfo files the entry under both, keyed by the strings themselves (a key folded on one side only loses X-hpterm, the one alias that is not lower case)")
 	c.Expect("C03-R11", 2)
 	c.asRule("C14-R6", "C03-R11", func() { c14Registry(c, p) })
@@ -170,6 +173,30 @@ func checkC03(c *Ctx) {
 		}
 		sort.Strings(shadow)
 		c.Check(len(shadow) == 0, "C03-R3", e.Name+":reachable", p.pos(e.Pos), fmt.Sprintf("sequences starting with a printable or 8-bit byte are consumed by the rune parser first: %v", shadow))
+		// (f) a description that declares xterm-style modifiers gets the modified forms of its cursor
+		// keys, whatever else it is or is not (tmux, foot and alacritty-direct declare them without
+		// being "xterm-like"): CSI 1 ; 2 X is Shift + the key whose sequence ends in X
+		if e.Int["Modifiers"] == 1 {
+			checked, missing := 0, []string{}
+			for _, f := range []string{"KeyRight", "KeyLeft", "KeyUp", "KeyDown", "KeyHome", "KeyEnd"} {
+				s := e.Str[f]
+				if len(s) != 3 || s[0] != 0x1b || (s[1] != '[' && s[1] != 'O') {
+					continue
+				}
+				k, _, okK := denote(f)
+				if !okK {
+					continue
+				}
+				checked++
+				want := "\x1b[1;2" + s[2:]
+				if b, has := tab.seqs[want]; !has || b.key != k || b.mod != modShift {
+					missing = append(missing, fmt.Sprintf("%s: %q", f, want))
+				}
+			}
+			if checked > 0 {
+				c.Check(len(missing) == 0, "C03-R3", e.Name+":xterm-modifiers-registered", p.pos(e.Pos), fmt.Sprintf("Modifiers = xterm: %d cursor keys have their Shift form in the table; missing %v", checked, missing))
+			}
+		}
 	}
 	// (c) xterm modifier call sites (syntactic, from the AST of the registrar calls)
 	c03XtermSites(c, p, modShift, modCtrl, modAlt, modMeta)
